@@ -114,11 +114,16 @@ pub fn check(c: &Case, ctx: &mut Ctx) -> Result<(), Failure> {
     let mut tie_poison = false; // OBV: an ambiguous close comparison poisons the running sum
     let mut vol_cum = 0.0f64;
     let (mut checked, mut skipped) = (0u64, 0u64);
-    for (i, bar) in c.bars.iter().enumerate() {
+    for (i, bar0) in c.bars.iter().enumerate() {
+        // mixed use of both paths on one instance (tele.rs): on some steps of a bar-fed case both twins get
+        // next(close); the relation is then that of the one-price bar this stands for
+        let sc_step = !scalar && k.scalar() && crate::tele::scalar_here();
+        let bar_eff = if sc_step { RawBar::flat(bar0.c, bar0.v) } else { *bar0 };
+        let bar = &bar_eff;
         let tb = map_bar(bar, &c.tr);
         // identity events (tele.rs) hit the instance fed the transformed stream
         crate::tele::step(&mut b, &c.cfg);
-        let (oa, ob) = if scalar { (a.next_scalar(bar.c), b.next_scalar(tb.c)) } else { (a.next_bar(bar), b.next_bar(&tb)) };
+        let (oa, ob) = if scalar || sc_step { (a.next_scalar(bar.c), b.next_scalar(tb.c)) } else { (a.next_bar(bar), b.next_bar(&tb)) };
         let t = i + 1;
         big = big.max(if scalar { bar.c.abs() } else { bar.max_abs_price() });
         big2 = big2.max(if scalar { tb.c.abs() } else { tb.max_abs_price() });
